@@ -440,6 +440,9 @@ func init() {
 			feed := func() bool {
 				for _, e := range env.ctl.Log(fed) {
 					fed++
+					if _, named := vpNames[e.ID]; !named && e.Side != "X" {
+						continue // a point that is no protocol event (the caller entering its wait for a reply): τ for the model
+					}
 					l := eventLabel(e)
 					if !acc.Feed(l) {
 						x.Failf("C10/impl/event-not-accepted:"+l, "script %v: after %d events the implementation produced %s, which no behaviour of the model allows here (model expects one of %v); init said %v",
